@@ -13,7 +13,7 @@ BODIES = ["call-target", "argument", "keyword-argument", "attribute-base", "bina
           "f-string(unjudged)", "lambda(unjudged)", "comprehension(unjudged)", "twice-on-one-line", "nested-call-argument",
           "in-else", "in-elif", "in-for-else", "in-while-else", "in-try-else", "in-async-with", "in-async-for", "in-match-case", "in-except-star", "in-nested-blocks",
           "if-condition", "while-condition", "for-iterable", "with-item", "match-subject", "conditional-expression", "boolean-operand", "starred-argument",
-          "dict-key", "set-element", "slice-bound", "yield-value", "assert-message", "walrus-value(unjudged)", "return-tuple", "chained-attribute-call", "after-compound-statement"]
+          "dict-key", "set-element", "slice-bound", "yield-value", "assert-message", "walrus-value(unjudged)", "return-tuple", "chained-attribute-call", "after-compound-statement", "after-attribute-store", "after-subscript-store", "after-augmented-attribute-store", "after-del-attribute"]
 BINDINGS = ["visible-undeclared", "declared-parameter", "local-assigned-earlier", "local-assigned-later(unjudged)", "for-target-earlier", "with-target-earlier", "module-level-assignment", "module-level-import", "module-level-def", "only-in-sibling-conftest", "unknown-name",
             "assigned-in-except-earlier", "except-as-name-earlier", "assigned-in-for-else-earlier", "assigned-in-try-finally-earlier", "local-import-earlier", "local-from-import-earlier",
             "local-def-earlier", "local-class-earlier", "tuple-unpack-earlier", "starred-unpack-earlier", "walrus-earlier", "match-capture-earlier", "assigned-in-match-case-earlier",
@@ -46,6 +46,8 @@ def body_lines(form, N):
      "dict-key": ["y = {%s.k: 1}" % N], "set-element": ["y = {%s.a, 1}" % N], "slice-bound": ["y = [1, 2][%s.a:]" % N], "yield-value": ["yield %s.a" % N],
      "assert-message": ["assert True, %s.msg" % N], "walrus-value(unjudged)": ["if (y := %s.a):" % N, "    pass"], "return-tuple": ["return 1, %s.a" % N],
      "chained-attribute-call": ["%s.a.b.c()" % N], "after-compound-statement": ["try:", "    v = 1", "except Exception:", "    v = 2", "%s.go(v)" % N],
+     "after-attribute-store": ["%s.attr = 1" % N, "%s.go()" % N], "after-subscript-store": ["%s['k'] = 1" % N, "%s.go()" % N],
+     "after-augmented-attribute-store": ["%s.n += 1" % N, "%s.go()" % N], "after-del-attribute": ["del %s.attr" % N, "%s.go()" % N],
     }[f]
 
 def build(a):
